@@ -230,9 +230,9 @@ Proof.
   destruct (read_rdata_body t c l) as [[r c1] l1].
   destruct r as [d|flt].
   - destruct (dlen c1 =? 0); [exact B|].
-    destruct B as [P1 P2 P3 P4 P5 P6 P7 P8 P9]. constructor; try assumption; try exact I; try (cbn; discriminate).
-    cbn in *. unfold Hmax in *. lia.
+    destruct B as [P1 P2 P3 P4 P5 P6 P7 P8 P9 P10]. constructor; try assumption; try exact I; try (cbn; discriminate).
+    all: cbn in *; lia.
   - destruct flt as [e| | |]; try exact B.
     destruct (dlen c1 =? 0); [exact B|].
-    destruct B as [P1 P2 P3 P4 P5 P6 P7 P8 P9]. constructor; try assumption; try exact I; try (cbn; discriminate).
+    destruct B as [P1 P2 P3 P4 P5 P6 P7 P8 P9 P10]. constructor; try assumption; try exact I; try (cbn; discriminate).
 Qed.
